@@ -959,10 +959,21 @@ impl State {
         while self.is_running() {
             self.fetch_and_run().map_err(|e| {
                 self.set_runtime_err_location(&e);
+                self.abandon_failed_code(&e);
                 e
             })?;
         }
         OK
+    }
+
+    // A failed program is not resumed by a later run(): skip the rest of it,
+    // unless it was only paused by the instruction limit.
+    fn abandon_failed_code(&mut self, e: &Xerr) {
+        let paused = matches!(e, Xerr::ErrorMsg(msg) if msg.starts_with("insn limit reached"));
+        if !paused {
+            let end = self.code.len();
+            self.set_ip(end);
+        }
     }
 
     fn set_runtime_err_location(&mut self, e: &Xerr) {
